@@ -1,6 +1,218 @@
-/- Driver/C14 — stub until the property's model driver is written. -/
+/-
+Driver/C14 — runs `Model.Retry` on protocol lines (see harness/src/bin/c14.rs for the grammar).
+The f64 expression of the backoff update, which the theorems keep abstract as `scale`, is
+instantiated here with IEEE doubles: `as_secs_f64`, `*`, Rust's NaN-ignoring `min`/`max`, and an
+exact integer re-implementation of `Duration::try_from_secs_f64` (round to nearest, ties to even,
+on the bits of the double).
+-/
 import Driver.Common
-open Drv
+import Cascette.Model.Retry
+open Cascette Drv
+open Cascette.Model.Retry
+
+namespace C14
+
+/-- `Duration::as_secs_f64`: `secs as f64 + nanos as f64 / 1e9`. -/
+def asSecsF64 (ns : Nat) : Float :=
+  (UInt64.ofNat (ns / 1000000000)).toFloat + (UInt64.ofNat (ns % 1000000000)).toFloat / 1000000000.0
+
+/-- Rust `f64::min`: a NaN operand is ignored. -/
+def fmin (a b : Float) : Float :=
+  if a.isNaN then b else if b.isNaN then a else if a < b then a else b
+
+/-- Rust `f64::max`. -/
+def fmax (a b : Float) : Float :=
+  if a.isNaN then b else if b.isNaN then a else if a > b then a else b
+
+/-- `Duration::try_from_secs_f64` in ns; `none` = `Err` (negative, NaN, ≥ 2^64 s). -/
+def tryFromSecsF64 (x : Float) : Option Nat :=
+  if x < 0.0 then none else
+  let bits := x.toBits.toNat
+  let mant := bits % 2 ^ 52 + 2 ^ 52
+  let e : Int := ((bits / 2 ^ 52 % 2 ^ 11 : Nat) : Int) - 1023
+  if e < -31 then some 0
+  else if e ≥ 64 then none
+  else if e ≥ 52 then some (mant * 2 ^ (e - 52).toNat * 1000000000)
+  else
+    let sh := (52 - e).toNat
+    let num := mant * 1000000000
+    let q := num / 2 ^ sh
+    let r := num % 2 ^ sh
+    let half := 2 ^ (sh - 1)
+    some (if r > half ∨ (r = half ∧ q % 2 = 1) then q + 1 else q)
+
+/-- the f64 part of the backoff update of the current code -/
+def scaleFixed (mul : Float) (maxBackoff : Nat) (b : Nat) : Option Nat :=
+  tryFromSecsF64 (fmax (fmin (asSecsF64 b * mul) (asSecsF64 maxBackoff)) 0.0)
+
+def ceilMs (ns : Nat) : Nat := (ns + 999999) / 1000000
+
+def field (k : String) (toks : List String) : Option String :=
+  toks.findSome? fun t => if t.startsWith (k ++ "=") then some (t.drop (k.length + 1)).toString else none
+
+def parseTok (s : String) : Option Outcome :=
+  match s.toList with
+  | [] => none
+  | h :: rest =>
+    let r := String.ofList rest
+    let code : Option Nat := r.toNat?.bind fun c => if 100 ≤ c ∧ c ≤ 999 then some c else none
+    let nop (o : Outcome) : Option Outcome := if rest.isEmpty then some o else none
+    match h with
+    | 'O' => r.toNat?.map .ok
+    | 'T' => nop (.err .timeout)
+    | 'U' => nop (.err .serviceUnavailable)
+    | 'W' => r.toNat?.map fun i => .err (.network i)
+    | 'V' => code.map fun c => .err (.serverError c)
+    | 'H' => code.map fun c => .err (.httpStatus c)
+    | 'L' => if r == "-" then some (.err (.rateLimited none))
+             else r.toNat?.bind fun h => if h ≤ durMax then some (.err (.rateLimited (some h))) else none
+    | 'P' => r.toNat?.map fun i => .err (.parse i)
+    | 'X' => r.toNat?.map fun i => .err (.other i)
+    | 'A' => nop (.err .allHostsFailed)
+    | 'K' => nop (.err .invalidKey)
+    | 'E' => r.toNat?.map fun i => .err (.invalidEndpoint i)
+    | 'G' => nop (.err .rangeNotSupported)
+    | 'M' => r.toNat?.map fun i => .err (.unsupportedOnWasm i)
+    | '8' => nop (.err .utf8)
+    | 'C' => r.toNat?.map fun i => .err (.cache i)
+    | _ => none
+
+def errTok : Err → String
+  | .network i => s!"W{i}"
+  | .http t => if t then "Qc" else "Qo"
+  | .parse i => s!"P{i}"
+  | .cache i => s!"C{i}"
+  | .allHostsFailed => "A"
+  | .rateLimited none => "L-"
+  | .rateLimited (some h) => s!"L{h}"
+  | .serviceUnavailable => "U"
+  | .httpStatus c => s!"H{c}"
+  | .serverError c => s!"V{c}"
+  | .invalidKey => "K"
+  | .invalidEndpoint i => s!"E{i}"
+  | .rangeNotSupported => "G"
+  | .timeout => "T"
+  | .other i => s!"X{i}"
+  | .utf8 => "8"
+  | .unsupportedOnWasm i => s!"M{i}"
+
+def resTok : Result → String
+  | .ok v => s!"O{v}"
+  | .err e => errTok e
+  | .panic => "panic"
+  | .starved => "starved"
+
+def optAll {α : Type} : List (Option α) → Option (List α)
+  | [] => some []
+  | none :: _ => none
+  | some a :: r => (optAll r).map (a :: ·)
+
+def msList (cap : Nat) (ds : List Nat) : String :=
+  if ds.isEmpty then "-" else ",".intercalate (ds.map fun d => toString (ceilMs (min d cap)))
+
+def parseBits (s : String) : Option Float :=
+  if s.length ≠ 16 then none else
+  (parseHexNat s).map fun bs => Float.ofBits (UInt64.ofNat (bs.foldl (fun a b => a * 256 + b) 0))
+
+def bitsHex (f : Float) : String := hexFixed 16 f.toBits.toNat
+
+def exec (toks : List String) : Option String := do
+  let mx ← (← field "mx" toks).toNat?
+  let ini ← (← field "ini" toks).toNat?
+  let max ← (← field "max" toks).toNat?
+  let mul ← parseBits (← field "mul" toks)
+  let jit ← match ← field "jit" toks with
+    | "0" => some false
+    | "1" => some true
+    | _ => none
+  let cap ← (← field "cap" toks).toNat?
+  let outS ← field "out" toks
+  let outs ← if outS == "-" then some [] else optAll ((outS.splitOn ",").map parseTok)
+  if mx ≥ 2 ^ 32 ∨ ini > durMax ∨ max > durMax then none
+  let p : Policy := { maxAttempts := mx, initialBackoff := ini, maxBackoff := max, jitter := jit }
+  let A := Arith.fixed (scaleFixed mul max)
+  if !jit then
+    if toks.length ≠ 7 then none
+    let t := execute A p (fun _ _ => 0) outs
+    return s!"calls={t.calls} d={msList cap t.delays} res={resTok t.result}"
+  else
+    if toks.length ≠ 8 then none
+    let obsS ← field "obs" toks
+    let obs ← if obsS == "-" then some [] else optAll ((obsS.splitOn ",").map String.toNat?)
+    -- the jitter the implementation drew, recovered from its observed delays (whole ms)
+    let jitOf (k base : Nat) : Nat :=
+      if min base cap = cap then 0 else (obs.getD (k - 1) 0 - ceilMs base) * 1000000
+    let t := execute A p jitOf outs
+    -- the law the theorems assume of the jitter source (`jitter ∈ 0.0..0.3` of whole ms), and
+    -- agreement of the model's delays with the observed ones
+    let t0 := execute A p (fun _ _ => 0) outs
+    let modelMs := t.delays.map fun d => ceilMs (min d cap)
+    let rec firstBad (i : Nat) (bases ms os : List Nat) : Option Nat :=
+      match bases, ms, os with
+      | [], [], [] => none
+      | b :: bs, m :: ms, o :: os =>
+        if m = o ∧ (min b cap = cap ∨ 10 * (o - ceilMs b) ≤ 3 * (b / 1000000)) then firstBad (i + 1) bs ms os
+        else some i
+      | _, _, _ => some i
+    let d := match firstBad 0 t0.delays modelMs obs with
+      | none => "jit-ok"
+      | some i => s!"jit-bad@{i}"
+    return s!"calls={t.calls} d={d} res={resTok t.result}"
+
+def envVal (s : String) : Option (Option (List Char)) :=
+  if s == "~" ∨ s == "!" then some none
+  else match parseHexNat s with
+    | some bs =>
+      match String.fromUTF8? (ByteArray.mk (bs.map UInt8.ofNat).toArray) with
+      | some str => some (some str.toList)
+      | none => none
+    | none => none
+
+def env (toks : List String) : Option String := do
+  if toks.length ≠ 6 then none
+  let r ← envVal (← field "r" toks)
+  let b ← envVal (← field "b" toks)
+  let m ← envVal (← field "m" toks)
+  let x ← envVal (← field "x" toks)
+  let j ← envVal (← field "j" toks)
+  let xb ← field "xbits" toks
+  let xbits ← if xb == "none" then some none else (parseBits xb).map some
+  let (p, mul) := fromEnv (fun _ => xbits) (2.0 : Float)
+    { retries := r, backoff := b, maxBackoff := m, multiplier := x, jitter := j }
+  return s!"mx={p.maxAttempts} ini={p.initialBackoff} max={p.maxBackoff} mul={bitsHex mul} jit={if p.jitter then 1 else 0}"
+
+def cdnStep (s : String) : Option (Nat × Option (List Char)) :=
+  match s.splitOn ":" with
+  | [st] => st.toNat?.bind fun c => if 200 ≤ c ∧ c ≤ 599 then some (c, none) else none
+  | [st, h] =>
+    match st.toNat?, envVal h with
+    | some c, some (some v) => if 200 ≤ c ∧ c ≤ 599 then some (c, some v) else none
+    | _, _ => none
+  | _ => none
+
+def cdn (toks : List String) : Option String := do
+  if toks.length ≠ 1 then none
+  let st ← field "st" toks
+  let steps ← optAll ((st.splitOn ",").map cdnStep)
+  let rec mk (k : Nat) : List (Nat × Option (List Char)) → List Outcome
+    | [] => []
+    | (c, h) :: r => classifyStatus c h k :: mk (k + 1) r
+  -- after the script the mock answers 404
+  let outs := mk 0 steps ++ List.replicate 4 (classifyStatus 404 none 0)
+  let p := defaultPolicy
+  let t := execute (Arith.fixed (scaleFixed 2.0 p.maxBackoff)) p (fun _ _ => 0) outs
+  let res := match t.result with
+    | .ok k => if (steps.getD k (0, none)).1 = 204 then "B" else s!"B{k}"
+    | r => resTok r
+  return s!"reqs={t.calls} res={res}"
+
+def handle : List String → String
+  | "exec" :: rest => (exec rest).getD "bad-op"
+  | "env" :: rest => (env rest).getD "bad-op"
+  | "cdn" :: rest => (cdn rest).getD "bad-op"
+  | _ => "bad-op"
+
+end C14
 
 def main : IO Unit := do
-  loopPure (← IO.getStdin) (← IO.getStdout) (fun _ => "bad-op")
+  loopPure (← IO.getStdin) (← IO.getStdout) C14.handle
